@@ -161,7 +161,7 @@ func GenAlter(v any, options ...*Options) (n gen.Node) {
 		case []any:
 			a := *(*gen.Array)(unsafe.Pointer(&tv))
 			for i, m := range tv {
-				a[i] = GenAlter(m)
+				a[i] = GenAlter(m, opt)
 			}
 			n = a
 		case map[string]any:
